@@ -102,37 +102,94 @@ func runC02(p *Prog, r *Report, tier string) {
 	// version constant in the builder: C08's stamping rule (imported)
 	checkHeaderStamping(p, r, "R-RFC.stamp")
 
-	// set header
-	if ch := p.Fn("(*pkg/entities.set).createHeader"); ch == nil {
-		r.Undecided("R-RFC.set-header", "(*pkg/entities.set).createHeader", "pkg/entities/set.go", "not found")
+	// set header: the function of pkg/entities that writes the set id (bytes 0..2 of set.headerBuffer) - a helper of
+	// PrepareSet or PrepareSet itself - writes the constant 2 on every way in that stands for setType == Template and
+	// its template-id parameter on every way in that stands for setType == Data (a value merged from two branches is
+	// followed back through the phi, each edge with the facts of that edge)
+	var ch *ssa.Function
+	var idPuts []putSite
+	for _, f := range p.RepoFns {
+		if !keyInPkg(fnKey(f), "pkg/entities") {
+			continue
+		}
+		for _, s := range putSites(f) {
+			if s.Base == "pkg/entities.set.headerBuffer" && s.Low == 0 && s.Width == 2 {
+				if ch != nil && ch != f {
+					r.Violation("R-RFC.set-header", "pkg/entities: the set id is written by "+fnKey(ch)+" and by "+fnKey(f), p.pos(f.Pos()), "two writers of the set id")
+				}
+				ch = f
+				idPuts = append(idPuts, s)
+			}
+		}
+	}
+	if ch == nil {
+		r.Undecided("R-RFC.set-header", "anchor: writer of the set id", "pkg/entities/set.go", "no function writes bytes 0..2 of set.headerBuffer")
 	} else {
-		ps := putSites(ch)
+		isSetType := func(v ssa.Value) bool {
+			if prm, ok := v.(*ssa.Parameter); ok {
+				return typeName(prm.Type()) == "pkg/entities.ContentType"
+			}
+			return isFieldLoad(v, "pkg/entities.set.setType")
+		}
 		nT, nD := 0, 0
-		for _, s := range ps {
-			kind := ""
-			for _, fct := range blockFacts(s.In.Block()) {
-				if fct.X == ssa.Value(ch.Params[1]) && fct.Op == token.EQL {
-					if v, ok := constInt(fct.Y); ok {
-						kind = map[int64]string{0: "Template", 1: "Data"}[v]
+		var dataParam *ssa.Parameter
+		for _, s := range idPuts {
+			one := []putSite{s}
+			for _, lf := range valueLeaves(s.Val, s.In.Block(), 3) {
+				kind := ""
+				for _, fct := range lf.Facts {
+					if isSetType(fct.X) && fct.Op == token.EQL {
+						if v, ok := constInt(fct.Y); ok {
+							kind = map[int64]string{0: "Template", 1: "Data"}[v]
+						}
 					}
 				}
-			}
-			one := []putSite{s}
-			switch kind {
-			case "Template":
-				nT++
-				checkPut(p, r, "R-RFC.set-header", fnKey(ch)+": set id of a template set", ch, one, "pkg/entities.set.headerBuffer", 0, 2, -1,
-					func(v ssa.Value) bool { c, ok := constInt(v); return ok && c == rfcTemplateSetID }, "the constant 2")
-			case "Data":
-				nD++
-				checkPut(p, r, "R-RFC.set-header", fnKey(ch)+": set id of a data set", ch, one, "pkg/entities.set.headerBuffer", 0, 2, -1,
-					func(v ssa.Value) bool { return v == ssa.Value(ch.Params[2]) }, "the template id parameter")
-			default:
-				r.Violation("R-RFC.set-header", fnKey(ch)+": set id written outside the Template/Data cases", p.instrPos(s.In), "unrecognised set-id write")
+				leaf := lf.V
+				switch kind {
+				case "Template":
+					nT++
+					checkPut(p, r, "R-RFC.set-header", fnKey(ch)+": set id of a template set", ch, one, "pkg/entities.set.headerBuffer", 0, 2, -1,
+						func(ssa.Value) bool { c, ok := constInt(leaf); return ok && c == rfcTemplateSetID }, "the constant 2")
+				case "Data":
+					nD++
+					checkPut(p, r, "R-RFC.set-header", fnKey(ch)+": set id of a data set", ch, one, "pkg/entities.set.headerBuffer", 0, 2, -1,
+						func(ssa.Value) bool {
+							prm, ok := leaf.(*ssa.Parameter)
+							if ok && prm.Parent() == ch {
+								dataParam = prm
+							}
+							return ok && prm.Parent() == ch
+						}, "the template id parameter")
+				default:
+					r.Violation("R-RFC.set-header", fnKey(ch)+": set id written outside the Template/Data cases", p.instrPos(s.In), "unrecognised set-id write")
+				}
 			}
 		}
 		if nT != 1 || nD != 1 {
 			r.Violation("R-RFC.set-header", fnKey(ch)+": one set-id write per set type", p.pos(ch.Pos()), fmt.Sprintf("found %d for Template, %d for Data", nT, nD))
+		}
+		// PrepareSet creates the header from its own set type and template id
+		if ps := p.Fn("(*pkg/entities.set).PrepareSet"); ps != nil {
+			ok := false
+			if ch == ps {
+				ok = dataParam != nil && len(ps.Params) > 2 && dataParam == ps.Params[2]
+			} else {
+				eachInstr(ps, func(in ssa.Instruction) {
+					if c, isC := in.(*ssa.Call); isC && c.Call.StaticCallee() == ch && dataParam != nil {
+						okT, okD := false, false
+						for i, a := range c.Call.Args {
+							if i < len(ch.Params) && ch.Params[i] == dataParam && len(ps.Params) > 2 && a == ssa.Value(ps.Params[2]) {
+								okD = true
+							}
+							if i < len(ch.Params) && typeName(ch.Params[i].Type()) == "pkg/entities.ContentType" && (isFieldLoad(a, "pkg/entities.set.setType") || (len(ps.Params) > 1 && a == ssa.Value(ps.Params[1]))) {
+								okT = true
+							}
+						}
+						ok = okT && okD
+					}
+				})
+			}
+			r.Check(ok, "R-RFC.set-header", fnKey(ps)+": header created from (setType, templateID)", p.pos(ps.Pos()), "createHeader(s.setType, templateID)", "PrepareSet does not create the set header from its own set type and template id", true)
 		}
 	}
 	if ul := p.Fn("(*pkg/entities.set).UpdateLenInHeader"); ul == nil {
@@ -143,17 +200,6 @@ func runC02(p *Prog, r *Report, tier string) {
 				cv, ok := v.(*ssa.Convert)
 				return ok && isFieldLoad(cv.X, "pkg/entities.set.length")
 			}, "uint16(set.length)")
-	}
-	if ps := p.Fn("(*pkg/entities.set).PrepareSet"); ps != nil {
-		ok := false
-		eachInstr(ps, func(in ssa.Instruction) {
-			if c, isC := in.(*ssa.Call); isC && c.Call.StaticCallee() != nil && c.Call.StaticCallee().Name() == "createHeader" {
-				if isFieldLoad(c.Call.Args[1], "pkg/entities.set.setType") && c.Call.Args[2] == ssa.Value(ps.Params[2]) {
-					ok = true
-				}
-			}
-		})
-		r.Check(ok, "R-RFC.set-header", fnKey(ps)+": header created from (setType, templateID)", p.pos(ps.Pos()), "createHeader(s.setType, templateID)", "PrepareSet does not create the set header from its own set type and template id", true)
 	}
 	// template record header and field specifier
 	if pr := p.Fn("(*pkg/entities.templateRecord).PrepareRecord"); pr == nil {
